@@ -2,6 +2,7 @@
 from __future__ import annotations
 
 import ast
+import copy
 
 from ..astutil import attr_chain, call_method, enum_member, short, src, ancestors, kwarg
 from ..linear import Normaliser, Sym, relation, same_relation
@@ -261,15 +262,37 @@ def _check(ctx: Ctx) -> None:
                       function=fe.qualname, construct=f"TIME_SIGNATURE token: emitter and parser compute `{r}` differently",
                       message=f"{got.canon()} vs {want.canon()}", file=fe.file, node=st)
         bt = eroles["cur_time_bar"]
-        skips = [s_ for s_ in blk if isinstance(s_, ast.If) and any(isinstance(x, ast.Continue) for x in s_.body) and s_.lineno < st.lineno
-                 and bt in {x.id for x in ast.walk(s_.test) if isinstance(x, ast.Name)}]
-        g = [s_ for s_ in skips if same_relation(relation(s_.test, Normaliser()), Sym.atom(bt), ">")]
+        # the conditions under which the TIME_SIGNATURE branch leaves the iteration before the emission (without raising): guard
+        # clauses passed on the way and enclosing two-way branches whose other side leaves -- as (skip condition, node)
+        from ..astutil import _always_leaves
+        from ..model import _Canon
+        leave = []
+        child = st
+        for a in ancestors(st):
+            if isinstance(a, (ast.For, ast.While, ast.FunctionDef)):
+                break
+            for blk_ in (getattr(a, "body", None), getattr(a, "orelse", None)):
+                if isinstance(blk_, list) and any(child is x for x in blk_):
+                    for s_ in blk_:
+                        if s_ is child:
+                            break
+                        if isinstance(s_, ast.If) and not s_.orelse and _always_leaves(s_.body) and not any(isinstance(x, ast.Raise) for y in s_.body for x in ast.walk(y)):
+                            leave.append((s_.test, s_))
+            if isinstance(a, ast.If):
+                if "TIME_SIGNATURE" in src(a.test):
+                    break
+                in_body = any(child is x for x in a.body)
+                otherb = a.orelse if in_body else a.body
+                # (the other side need not `continue`: whatever it does, it does not reach this emission)
+                if not any(isinstance(x, ast.Raise) for y in otherb for x in ast.walk(y)):
+                    leave.append((_Canon().visit_UnaryOp(ast.UnaryOp(op=ast.Not(), operand=copy.deepcopy(a.test))) if in_body else a.test, a))
+            child = a
+        skips = [(t, s_) for t, s_ in leave if bt in {x.id for x in ast.walk(t) if isinstance(x, ast.Name)}]
+        g = [(t, s_) for t, s_ in skips if relation(t, Normaliser()) is not None and same_relation(relation(t, Normaliser()), Sym.atom(bt), ">")]
         ctx.check(bool(g) or bool(skips), "CLK5", "tokenise ignores a time signature in mid-bar (as detokenise does)", function=fe.qualname,
                   construct="tokenise lacks the mid-bar time-signature guard", message="", file=fe.file, node=st)
         # ... and only then: a signature on a bar boundary (bar time 0) is always emitted, whatever else happened at that tick
-        other = [s_ for s_ in blk if isinstance(s_, ast.If) and s_.lineno < st.lineno and s_ not in g
-                 and any(isinstance(x, (ast.Continue, ast.Break, ast.Return)) for y in s_.body for x in ast.walk(y))
-                 and not any(isinstance(x, ast.Raise) for y in s_.body for x in ast.walk(y))]
+        other = [s_ for t, s_ in leave if all(s_ is not s2 for _, s2 in g)]
         ctx.check(not other, "CLK5", "tokenise skips a time signature only in mid-bar (`bar time > 0`), exactly like detokenise", function=fe.qualname,
                   construct="tokenise skips a time signature under a condition other than `bar time > 0`",
                   message=f"{[short(s_.test, 70) for s_ in other]}: a signature placed on a bar boundary would not be emitted (no token, capacity not updated), "
